@@ -97,18 +97,30 @@ def _dyadic_small(v):
     return d & (d - 1) == 0 and d <= 2 ** 24 and abs(v.numerator) < 2 ** 34
 
 
+def _pow2(v):
+    v = abs(Fraction(v))
+    return v != 0 and v.numerator & (v.numerator - 1) == 0 and v.denominator & (v.denominator - 1) == 0
+
+
 def lu_is_exact(A):
-    """LU with partial pivoting (first maximal pivot, as LAPACK getrf) in exact arithmetic: True when every
-    multiplier and every intermediate entry is a short dyadic rational, so that the binary64 elimination
-    performs exactly the same steps and meets exactly the same zero pivot"""
+    """Is the singularity of A met EXACTLY by the binary64 LU with partial pivoting, so that numpy.linalg.solve
+    certainly raises LinAlgError?  True for a zero row or a zero column (they stay exactly zero whatever the rounding
+    of the other entries, so some pivot is exactly zero).  Otherwise the elimination is simulated exactly and must only
+    use pivots that are powers of two - OpenBLAS multiplies by the rounded reciprocal of the pivot, so even two identical
+    rows need not cancel exactly (observed: [[999999,4,0],[999999,4,0],[0,1,3999999]] is NOT reported singular) - and
+    short dyadic multipliers / entries."""
     n = len(A)
     m = [list(r) for r in A]
+    if any(all(v == 0 for v in r) for r in m) or any(all(m[r][c] == 0 for r in range(n)) for c in range(n)):
+        return True
     if not all(_dyadic_small(v) for r in m for v in r):
         return False
     for c in range(n):
         piv = max(range(c, n), key=lambda r: (abs(m[r][c]), -r))
         if m[piv][c] == 0:
             return True
+        if not _pow2(m[piv][c]):
+            return False
         m[c], m[piv] = m[piv], m[c]
         for r in range(c + 1, n):
             f = m[r][c] / m[c][c]
@@ -833,13 +845,14 @@ def main(run):
         M = rng.choice([1, 2, 2, 3, 3, 4, 5])
         off = rng.choice([0, 0, 0, 10, -7, 1000, 10 ** 6])
         best = [rng.randint(-3, 3) + off for _ in range(M)]
-        kind = rng.choice(["random", "random", "diag", "diag-eq", "dup", "bestrow", "prop2", "prop3", "sumrows", "zerox",
-                           "negative", "tiny", "beyond", "dense"])
+        kind = rng.choice(["random", "random", "diag", "diag-eq", "dup", "bestrow", "bestcol", "pow2dup", "prop2", "prop3", "sumrows",
+                           "zerox", "negative", "tiny", "tiny", "beyond", "dense"])
         rel = None
         if kind in ("diag", "diag-eq", "tiny", "beyond"):
             d = [rng.randint(1, 9) for _ in range(M)]
             if kind == "tiny":
-                d[rng.randrange(M)] = Fraction(1, 2 ** rng.choice([20, 21, 24]))
+                # 2^-10 .. 2^-19 are above the 1e-6 threshold (main branch if within the worst point), 2^-20 .. below it
+                d[rng.randrange(M)] = Fraction(1, 2 ** rng.choice([10, 14, 17, 19, 20, 21, 24]))
             rel = [[d[i] if i == j else 0 for j in range(M)] for i in range(M)]
         elif kind in ("random", "negative", "dense"):
             hi = 6 if kind != "dense" else 40
@@ -847,14 +860,19 @@ def main(run):
             if kind == "negative" and M >= 2:
                 rel = [[(i + j + 1) for j in range(M)] for i in range(M)]
                 rel[rng.randrange(M)][rng.randrange(M)] += rng.randint(1, 3)
-        elif kind in ("dup", "bestrow", "prop2", "prop3", "sumrows"):
+        elif kind in ("dup", "bestrow", "bestcol", "pow2dup", "prop2", "prop3", "sumrows"):
             rel = [[rng.randint(0, 6) for _ in range(M)] for _ in range(M)]
+            if kind == "pow2dup":
+                rel = [[rng.choice([0, 1, 2, 4, 8]) for _ in range(M)] for _ in range(M)]     # power-of-two pivots: exact LU
             if M >= 2:
                 i, j = rng.sample(range(M), 2)
-                if kind == "dup":
+                if kind in ("dup", "pow2dup"):
                     rel[j] = list(rel[i])
                 elif kind == "bestrow":
                     rel[j] = [0] * M
+                elif kind == "bestcol":
+                    for row in rel:
+                        row[j] = 0              # every extreme point has the best value in objective j
                 elif kind == "prop2":
                     rel[j] = [2 * v for v in rel[i]]
                 elif kind == "prop3":
